@@ -469,7 +469,8 @@ pub fn drive_bursts(ctx: &mut Ctx, rng: &mut Rng, thorough: bool) {
             let shared_nonce_i = rng.bytes(32);
             for i in 0..n {
                 let sock = if rng.chance(1, 6) { rng.below(4) as usize } else { 4 + (i % 44) };   // several requests from a few sockets
-                let kind = rng.below(20);
+                let forced = i == 1 && r % 2 == 1;      // (every second burst holds an extra-field request for certain)
+                let kind = if forced { 16 } else { rng.below(20) };
                 let size = 1024 + 4 * rng.below(120) as usize;
                 let d = match kind {
                     0..=7 => valid_request(rng, Proto::Google, size, None),
@@ -484,7 +485,7 @@ pub fn drive_bursts(ctx: &mut Ctx, rng: &mut Rng, thorough: bool) {
                             proto::build_request(Proto::Ietf, &nonce, size, lists[rng.below(6) as usize], if ws { Some(&srv) } else { None })
                         } else { valid_request(rng, Proto::Ietf, size, if ws { Some(&srv) } else { None }) }
                     }
-                    16 if rng.chance(1, 2) => {
+                    16 if forced || rng.chance(1, 2) => {
                         // a valid request that carries extra fields with known tags (in wire order), one of them as long as a
                         // nonce and sorting before NONC: the server must still find and echo the NONC field
                         let p = if rng.chance(1, 2) { Proto::Google } else { Proto::Ietf };
@@ -492,6 +493,9 @@ pub fn drive_bursts(ctx: &mut Ctx, rng: &mut Rng, thorough: bool) {
                         let nonce = rng.bytes(nl);
                         let mut fields: Vec<(u64, Vec<u8>)> = vec![(rc::SIG, rng.bytes(nl)), (rc::NONC, nonce), (rc::MAXT, rng.bytes(8)), (rc::ZZZZ, vec![])];
                         if p == Proto::Ietf { fields.push((rc::VER, proto::VER_DRAFT13.to_le_bytes().to_vec())); }
+                        // ... every second one ends in an EMPTY field (the highest tag carries nothing: its offset equals the
+                        // length of the value area)
+                        if forced || i % 2 == 0 { fields.push((rc::PAD, vec![])); }
                         fields.sort_by_key(|f| f.0);
                         let base = rc::ref_encode(&fields).len() + if p == Proto::Ietf { 12 } else { 0 };
                         let zi = fields.iter().position(|f| f.0 == rc::ZZZZ).unwrap();
@@ -1021,6 +1025,19 @@ pub fn drive_slowdrain(ctx: &mut Ctx, rng: &mut Rng, thorough: bool) {
         std::thread::sleep(std::time::Duration::from_millis(5600));
         run_round(ctx, &mut rig, vec![(0, rg.clone())], vec![], false);
         run_round(ctx, &mut rig, vec![(1, ri.clone())], vec![], false);
+        // the system clock is STEPPED between batches (backwards: a clock that ran ahead is corrected, a VM is restored from a
+        // snapshot; forwards: a long suspension). Every batch states the reading taken when IT is signed - the harness's
+        // bracketing readings and the server read the same (stepped) clock.
+        for step in [-600i64, -3, 86_400, -86_400 - 7, 604] {
+            crate::util::step_clock(step);
+            ctx.emit(json!({"ev": "clock_step", "secs": step}));
+            let a = valid_request(rng, Proto::Google, 1024, None);
+            let b = valid_request(rng, Proto::Ietf, 1024, None);
+            run_round(ctx, &mut rig, vec![(0, a), (1, b), (2, rg.clone())], vec![], false);
+            run_round(ctx, &mut rig, vec![(1, ri.clone())], vec![], false);
+        }
+        crate::util::unstep_clock();
+        ctx.emit(json!({"ev": "clock_step", "secs": 0}));
     }
 }
 
